@@ -43,7 +43,7 @@ COMPONENTS_STUB = ["zarr sync() dispatcher + event-loop thread + thread pool -> 
 EXPECTED_PROBES = ["fault_before_first_attr", "fault_in_write_skip_metadata",
                    "fault_in_chunk_of_multichunk_array", "fault_during_nested_object",
                    "genuine_unpicklable_attribute", "second_fault_in_history", "old_object_survived",
-                   "target_absent_after", "target_unreadable_after", "complete_new_after_fault",
+                   "target_absent_after", "target_unreadable_after",
                    "write_once_refused", "stragglers_at_raise", "recovery_save_ok"]
 # thorough tier only: "sweep_exhaustive" / "sweep_strided" count how many workloads were swept over
 # EVERY fault position and how many (more than 700 store positions) over a stride
@@ -229,7 +229,8 @@ def _execute(plan, focus_fault, rec_counts=None, refs=None, keep_log=True):
                 if sc["fired"] and sc["inflight_at_return"]:
                     bump(out["probes"], "stragglers_at_raise")
                 if sc["fired"]:
-                    _classify_fault_site(E, sc, out["probes"])
+                    _classify_fault_site(E, sc, out["probes"],
+                                         rec_counts[si]["store"] if rec_counts else None)
             tag = f"step{si}"
             # ---- oracle 2: nothing but the target changed; staging is gone
             if _others_hash(E, tgt_final) != others_before:
@@ -355,7 +356,7 @@ def _prekind(plan, last_ok):
     return "object" if last_ok is not None else plan["pre"]
 
 
-def _classify_fault_site(E, sc, probes):
+def _classify_fault_site(E, sc, probes, K=None):
     """Rare-branch probes derived from the event log around the FAULT event."""
     ev = E.log.events
     idx = max((i for i, e in enumerate(ev) if e.startswith("FAULT|")), default=None)
@@ -376,6 +377,10 @@ def _classify_fault_site(E, sc, probes):
     attr_sets = [e for e in scope_sets if e.endswith("|zarr.json")]
     if len(attr_sets) <= 2:
         bump(probes, "fault_before_first_attr")
+    f = sc["fired"]
+    if K and f.get("kind") == "store" and f["k"] >= K - 3 and key == "zarr.json":
+        # the two skip-list attributes are the last writes of a save (root zarr.json rewritten)
+        bump(probes, "fault_in_write_skip_metadata")
 
 
 def _positions(plan, counts, rng):
